@@ -145,7 +145,8 @@ func (c *Check) gochannelRoles(id string) *GCRoles {
 			if sl, ok := rs.At(0).Type().(*types.Slice); ok && NamedOf(sl.Elem()) == r.S {
 				r.LookupSubs = fn
 			}
-			if rs.At(0).Type().String() == "bool" && len(FieldLoads(fn, r.Closed)) > 0 && fn != r.Close {
+			if (rs.At(0).Type().String() == "bool" || (IsErrorType(rs.At(0).Type()) && fn.Signature.Params().Len() == 0 && r.IsClosed == nil)) && len(FieldLoads(fn, r.Closed)) > 0 && fn != r.Close {
+				// the reader of the closed flag: answers with the flag, or with an error that is non-nil iff the flag is set
 				r.IsClosed = fn
 			}
 		}
@@ -370,4 +371,15 @@ func gcSafety(c *Check, P string, r *GCRoles) {
 	c04LookupCopy(c, S, r)
 	c11PublishSection(c, S, r)
 	c11Handoff(c, S, r)
+	c05NoOtherLockAcrossWait(c, S, r)
+}
+
+// closedVerdictEdges: for calls of the closed-flag reader in fn, the edges on
+// which the answer is "closed" and "open" (bool result, or error result vs nil).
+func (r *GCRoles) closedVerdictEdges(fn *ssa.Function, calls []ssa.CallInstruction) (closed, open []Edge) {
+	if r.IsClosed != nil && IsErrorType(r.IsClosed.Signature.Results().At(0).Type()) {
+		open, closed = NilEdges(fn, ResultOfAny(calls, 0))
+		return
+	}
+	return BoolEdges(fn, ResultOfAny(calls, 0))
 }
